@@ -329,6 +329,49 @@ def conic_labels(c):
     return out
 
 
+# ------------------------------------------------------------------------------------------- degenerate quadrics, every representative
+@st.composite
+def degq_case(draw, tier="quick"):
+    n = draw(st.sampled_from([3, 3, 4]))
+    vec = st.lists(st.integers(-2, 2), min_size=n, max_size=n)
+    return {"g": draw(vec), "h": draw(vec), "line": draw(st.lists(st.integers(-3, 3), min_size=3, max_size=3)), "factors": [draw(mscale()) for _ in range(3)]}
+
+
+def run_degq(c):
+    """the line pair / plane pair g h^T + h g^T with small integer coordinates (many exact zeros) given by the representatives
+    k * M for several non-zero k (also negative): components are {g, h} and, for conics, intersect(line) gives the same points
+    for every k"""
+    g, h = np.array(c["g"], float), np.array(c["h"], float)
+    n = len(g)
+    if len(h) != n or n not in (3, 4) or np.linalg.matrix_rank(np.stack([g, h])) < 2:
+        raise Skip("proportional or zero")
+    M = np.outer(g, h) + np.outer(h, g)
+    ks = [1.0] + [mvalue(s) for s in c["factors"]]
+    ck = Checker()
+    cls = G.Conic if n == 3 else Quadric
+    ref_pts = None
+    ln = np.array(c["line"], float)
+    for k in ks:
+        Q = cls(M * k)
+        comp, f = call("degenerate-quadric:components", lambda: Q.components)
+        if f:
+            ck.add(f)
+            continue
+        arrs = [np.asarray(x.array) for x in comp]
+        ok = len(arrs) == 2 and all(np.all(np.isfinite(a)) and np.max(np.abs(a)) > 1e-12 for a in arrs) and C.multiset_peq(arrs, [g, h], 1e-6)
+        if not ck.check(ok, "degenerate-quadric:components:rescaled-matrix", (k, [a.tolist() for a in arrs], c["g"], c["h"])):
+            continue
+        if n == 3 and np.any(ln[:2]) and abs(np.linalg.det(np.stack([g, h, ln]))) > 0.5 and np.linalg.matrix_rank(np.stack([g, ln])) == 2 and np.linalg.matrix_rank(np.stack([h, ln])) == 2:
+            pts, f = call("degenerate-quadric:intersect(line)", Q.intersect, Line(ln))
+            if f:
+                ck.add(f)
+                continue
+            pa = [np.asarray(x.array) for x in pts]
+            exp = [np.cross(g, ln), np.cross(h, ln)]
+            ck.check(len(pa) == 2 and C.multiset_peq(pa, exp, 1e-6), "degenerate-quadric:intersect(line):rescaled-matrix", (k, [a.tolist() for a in pa], [e.tolist() for e in exp]))
+    return ck.result()
+
+
 LAWS = [
     Law("rescale_argument", lambda tier: case(tier), run, nontrivial, labels, {"quick": 6000, "thorough": 150000},
         "op(args) vs op(args with one argument's homogeneous representative rescaled)", shard=400, mandatory=("negative-factor", "complex-factor")),
@@ -337,6 +380,10 @@ LAWS = [
     Law("conic_constructors", lambda tier: conic_case(tier), run_conic, lambda c: any(s[0] < 0 or s[1] != 0 or s[2] != 1 for s in c["factors"]), conic_labels,
         {"quick": 1500, "thorough": 40000}, "Conic.from_tangent/from_points/from_foci/from_lines on lattice data (parallel connecting lines are common) vs the same call with every argument rescaled independently", shard=300,
         mandatory=("aux-point-at-infinity", "odd-number-of-negative-factors")),
+    Law("degenerate_quadric_representatives", lambda tier: degq_case(tier), run_degq, lambda c: any(s[0] < 0 for s in c["factors"]),
+        lambda c: [f"n{len(c['g'])}"] + (["zero-coordinates"] if 0 in c["g"] or 0 in c["h"] else []) + (["negative-factor"] if any(s[0] < 0 for s in c["factors"]) else []),
+        {"quick": 600, "thorough": 10000}, "line / plane pairs with small integer coordinates given by k*M for several k: components and intersect(line) independent of k", shard=300,
+        mandatory=("zero-coordinates", "negative-factor")),
     Law("equality", lambda tier: eq_case(tier), run_eq, lambda c: True, lambda c: [f"{c['kind']}{c['d']}"], {"quick": 1500, "thorough": 30000},
         "== holds for every non-zero multiple, is reflexive and symmetric, and is false for objects that are clearly not multiples", shard=400),
 ]
